@@ -714,3 +714,34 @@ def t_protect_region(facts, res, tier):
     bad = [r for r in rows if r["kind"] == "ok" and not (isinstance(r.get("protected"), Sym) and r["protected"].key.startswith("self.protected"))]
     if bad:
         res.fail(key, facts.where(afn), "asm() does not store the generator's `protected` flag in the emitted instruction on every path")
+
+
+@rule("T-OPT-PEEK", floor=3,
+      text="the peephole look-ahead of optimize() examines every line it obtains from the multipeek cursor: each `peek()` result is bound and matched by an `if let`; a `peek()` that only decides a loop condition advances the look-ahead cursor past the first line that ends the loop, so a line (possibly a flag-using branch) is skipped unexamined - and the optimiser's decisions then depend on whether listing comments are present")
+def t_opt_peek(facts, res, tier):
+    fn = facts.fn("optimize", "AssemblyCode")
+    peeks = [n for n in walk(fn["body"]) if n.get("k") == "mcall" and n["method"] == "peek"]
+    res.inst("T-OPT-PEEK:sites", True, {"peek_calls": len(peeks)})
+    if len(peeks) < 2:
+        raise AnchorMissing("optimize(): look-ahead `peek()` calls not found")
+    owners = {}
+    for n in walk(fn["body"]):
+        k = n.get("k")
+        if k == "if" and n["cond"].get("k") == "letcond":
+            for p in walk(n["cond"]["e"]):
+                if p in peeks:
+                    owners[id(p)] = "if-let"
+        elif k == "while":
+            for p in walk(n["cond"]):
+                if p in peeks:
+                    owners[id(p)] = "while"
+        elif k == "match":
+            for p in walk(n["e"]):
+                if p in peeks:
+                    owners.setdefault(id(p), "match")
+    for i, p in enumerate(peeks):
+        how = owners.get(id(p), "unbound")
+        key = "T-OPT-PEEK:%d:%s" % (i, how)
+        res.inst(key, True, None)
+        if how not in ("if-let", "match"):
+            res.fail("T-OPT-PEEK:%s" % how, facts.where(fn, p), "optimize(): a look-ahead `peek()` is used as a %s condition: every call advances the multipeek cursor, so the line that ends the loop is consumed without being examined and the next check looks one line too far" % how)
